@@ -179,6 +179,7 @@ def check(ctx, replay=None):
     import c02_extra, c03_e2e, c02_special, c10_extra
     xstds = ("c++17",) if ctx.quick() else ("c++17", "c++20")
     nextra = c02_extra.run(ctx, xstds)
+    nextra += c02_extra.run_string_lists(ctx, xstds)
     # synthesised operators (binary, compound assignment, relational, indexer) and results whose arms carry no bytes
     nextra += c02_special.run(ctx, xstds, goals=goals)
     nextra += c10_extra.run(ctx, ("cpp",), xstds)
